@@ -60,6 +60,10 @@ partial def toExpr : S → Option Expr
   | .list (.atom "fcall" :: .atom n :: args) => do let xs ← args.mapM toExpr; pure (.fcall n xs)
   | .list (.atom "member" :: .atom n :: recv :: args) => do
     let m ← Member.ofName n; let r ← toExpr recv; let xs ← args.mapM toExpr; pure (.member m r xs)
+  -- BEGIN INT
+  | .list [.atom "error"] => some .errorE
+  | .list [.atom "item", .atom n, e] => do let k ← n.toNat?; let x ← toExpr e; pure (.item x k)
+  -- END INT
   | _ => none
 
 def toDir : String → Dir
